@@ -110,8 +110,14 @@ def run_one(cfg, choices):
                 tuple(sorted(obs.res.items())))
     S = sched.Sched(choices, horizon=HORIZON, state_fn=shared_state if PRUNE else None)
 
-    def make_cb(idx):
-        def cb(indication, host):
+    class Consumer:
+        # the callbacks are bound methods of ONE function on different objects (the usual shape of
+        # callbacks in an application, and the case in which "is it registered already?" can go wrong)
+        def __init__(self, idx):
+            self.idx = idx
+
+        def consume(self, indication, host):
+            idx = self.idx
             S.point('cb%d.enter' % idx)
             obs.log.append((idx, indication['n']))
             if cfg.get('slowcb'):
@@ -119,10 +125,8 @@ def run_one(cfg, choices):
             S.point('cb%d.exit' % idx)
             if cfg['raising'] and idx == 0:
                 raise RuntimeError('callback failed')
-        cb.__name__ = 'cb%d' % idx
-        return cb
     for i in range(cfg['ncb']):
-        lst.add_callback(make_cb(i))
+        lst.add_callback(Consumer(i).consume)
 
     def sender(k, idents):
         def f():
